@@ -35,6 +35,7 @@ def run(ctx):
     check_numeq_model(ctx, prog)
     check_strrep(ctx, prog)
     check_container_handles(ctx, prog)
+    check_ranges(ctx, prog)
     # the element lifetime rules of Array, on the instantiations Var's containers use (Array<Var>, Array<char>, the Dic storage):
     # removing / inserting children must construct and destroy each child exactly once
     n_l = C01.check_lifetime(ctx, prog)
@@ -1043,3 +1044,70 @@ def check_numeq_model(ctx, prog):
         ctx.undecided('C04.numeq', f['pq'], role, fwhere(f), 'outside the interpreted fragment: %s' % und)
     else:
         ctx.check(bad is None, 'C04.numeq', f['pq'], role, fwhere(f), 'interpreted for %d (value, representation) pairs' % runs, 'Var::operator==: %s' % bad)
+
+
+
+def check_ranges(ctx, prog):
+    """C04.range: a Var member that removes a range (i, n) from its array forwards it to Array::remove only when the guards
+    on the way establish 0 <= i, n > 0 and i + n <= length().  Array::remove itself does not check: a negative start
+    (the -1 a failed search returns) destroys and shifts memory in front of the first element, over the array header.
+    Decided by evaluating the guards of the call site on a grid of (i, n, length)."""
+    import bounded, bytesets
+    n = 0
+    for f in prog.functions:
+        if f.get('cls') != 'asl::Var' or not f.get('body'):
+            continue
+        for e in fn_exprs(f):
+            if not (e.get('k') == 'call' and (e.get('pq') or '') == 'asl::Array::remove' and len(e.get('a') or []) == 2 and e.get('obj') is not None):
+                continue
+            o = strip_lv(e['obj'])
+            while (o.get('k') in ('un', 'paren', 'cast') and o.get('e')) or (o.get('k') == 'call' and o.get('obj') is not None and (o.get('fn') or '').split('::')[-1] in ('operator->', 'operator*')):
+                o = strip_lv(o['e'] if o.get('k') != 'call' else o['obj'])
+            if not (o.get('k') == 'mem' and o.get('f') == '_a'):
+                continue
+            if not all(strip_lv(a).get('k') == 'var' and strip_lv(a).get('vk') == 'param' for a in e['a']):
+                continue
+            n += 1
+            ctx.analysed(f)
+            role = '%s%s:range forwarded to Array::remove is inside the array' % (f['n'], f.get('sig') or '')
+            g = q.Guarded(f)
+            try:
+                by_id, by_text = {}, {}
+                guards = []
+                arg_ids = set(strip_lv(a)['id'] for a in e['a'])
+                split = []
+                for c, pol, kind in g.of(e):
+                    if isinstance(c, dict) and kind != 'case' and pol:
+                        split += [(ci, True, kind) for ci in conjuncts(c)]
+                    else:
+                        split.append((c, pol, kind))
+                for gd in split:
+                    c, pol, kind = gd
+                    if isinstance(c, dict) and kind != 'case':
+                        bi, bt = bounded.atoms_of(prog, f, c)
+                        if not (set(bi) <= arg_ids and all('length' in t for t in bt)):
+                            continue            # a guard on something else (the type tag): says nothing about the range
+                        by_id.update(bi)
+                        by_text.update(bt)
+                        guards.append(gd)
+                for a in e['a']:
+                    by_id[strip_lv(a)['id']] = strip_lv(a).get('n')
+            except bytesets.Undecidable as u:
+                ctx.undecided('C04.range', f['pq'], role, fwhere(f, e['l']), 'guards not evaluable: %s' % u)
+                continue
+            lens = [t for t in by_text if 'length' in t]
+            others = [t for t in by_text if t not in lens]
+            ia, na = strip_lv(e['a'][0])['id'], strip_lv(e['a'][1])['id']
+            if len(lens) != 1 or others or set(by_id) != set((ia, na)):
+                ctx.undecided('C04.range', f['pq'], role, fwhere(f, e['l']), 'the guards depend on more than the two arguments and the array length (%s)' % sorted(list(by_text) + list(by_id.values())))
+                continue
+            lt = lens[0]
+            st, info = bounded.decide(prog, f, tuple(guards), lambda ev: ev.by_text[lt] < 0 or 0 <= ev.env[ia] and ev.env[na] > 0 and ev.env[ia] + ev.env[na] <= ev.by_text[lt], by_id, by_text, range(-3, 6), G=g)
+            ctx.evaluations += 9 ** 3
+            if st == 'holds':
+                ctx.ok('C04.range', f['pq'], role, fwhere(f, e['l']), 'guards imply 0 <= i, n > 0, i + n <= length() on the grid (%s points reach the call)' % info)
+            elif st == 'fails':
+                ctx.violation('C04.range', f['pq'], role, fwhere(f, e['l']), 'the guards let %s through to Array::remove(i, n): elements outside [0, length()) are destroyed and moved (a negative start runs over the array header)' % ', '.join('%s = %s' % kv for kv in sorted(info.items())))
+            else:
+                ctx.undecided('C04.range', f['pq'], role, fwhere(f, e['l']), str(info))
+    ctx.floor('C04.range', n, 1)
